@@ -129,6 +129,7 @@ class Setup:
     # ---- per path
     def reset(self, fault_at=None):
         self.w.reset(fault_at)
+        NEGINF_P.clear()
         del self.helpers[:]
         self.prior_sample_rngs = []
         self.count_library = None
